@@ -276,6 +276,55 @@ func chainKeys() {
 			return
 		}
 	}
+	// chains are values: building a fork on top of a prefix object (however it was obtained) must leave the parent
+	// and every sibling prefix what they were — content and (cached) key
+	for l := 2; l <= 12; l++ {
+		for _, way := range []string{"Prefix", "AllPrefixes", "KeysThenAllPrefixes"} {
+			for _, grow := range []string{"Append", "Extend"} {
+				for i := 0; i < l-1; i++ {
+					n++
+					c := mkChain(l)
+					want := mkChain(l) // independent objects with the same content
+					all := c.AllPrefixes()
+					if way == "KeysThenAllPrefixes" {
+						_ = c.Key()
+						_ = c.KeysForPrefixes()
+					}
+					var p *gpbft.ECChain
+					if way == "Prefix" {
+						p = c.Prefix(i)
+					} else {
+						p = all[i]
+					}
+					_ = p.Key()
+					foreign := &gpbft.TipSet{Epoch: p.Head().Epoch + 1, Key: []byte("fork-tipset"), PowerTable: tcid}
+					var fork *gpbft.ECChain
+					if grow == "Append" {
+						fork = p.Append(foreign)
+					} else {
+						fork = p.Extend(foreign.Key)
+					}
+					rep := map[string]any{"kind": "keys", "length": l, "prefix": i + 1, "obtained_by": way, "grown_by": grow}
+					wantFork := cloneChain(want.Prefix(i))
+					wantFork.TipSets = append(wantFork.TipSets, &gpbft.TipSet{Epoch: foreign.Epoch, Key: foreign.Key, PowerTable: fork.Head().PowerTable})
+					if !fork.Eq(wantFork) || fork.Key() != wantFork.Key() {
+						chk.Violation("fork-of-prefix-wrong", fmt.Sprintf("length %d: a fork grown by %s on prefix %d (from %s) is not that prefix plus the new tipset", l, grow, i+1, way), rep)
+						return
+					}
+					if !c.Eq(want) || c.Key() != want.Key() || cloneChain(c).Key() != want.Key() {
+						chk.Violation("fork-of-prefix-rewrites-parent", fmt.Sprintf("length %d: after %s onto prefix %d (from %s) the parent chain changed (content equal: %v, cached key right: %v)", l, grow, i+1, way, c.Eq(want), c.Key() == want.Key()), rep)
+						return
+					}
+					for j, q := range all {
+						if !q.Eq(want.Prefix(j)) || q.Key() != want.Prefix(j).Key() || cloneChain(q).Key() != q.Key() {
+							chk.Violation("fork-of-prefix-rewrites-sibling", fmt.Sprintf("length %d: after %s onto prefix %d (from %s) the prefix object of length %d no longer holds / is keyed by its tipsets", l, grow, i+1, way, j+1), rep)
+							return
+						}
+					}
+				}
+			}
+		}
+	}
 	if (&gpbft.ECChain{}).Key() != (gpbft.ECChainKey{}) || !(&gpbft.ECChain{}).Key().IsZero() {
 		chk.Violation("bottom-key-not-zero", "", nil)
 	}
@@ -461,6 +510,54 @@ func roundTrips() map[string][]byte {
 			return nil
 		}},
 	}
+	// the largest values the protocol allows (128 tipsets x 760-byte keys; vote and justification both carrying the
+	// chain), and sizes around the powers of two in between, through both wire codecs: what encodes must decode
+	for _, n := range []int{1, 9, 10, 19, 20, 38, 39, 77, 78, 100, 127, 128} {
+		n := n
+		wrappers = append(wrappers, enc2{fmt.Sprintf("zstd+cbor/%d tipsets x 760-byte keys", n), func() error {
+			big := mkChain(n)
+			for _, t := range big.TipSets {
+				t.Key = bigKey()
+			}
+			supp := gpbft.SupplementalData{PowerTable: tcid}
+			g := &gpbft.GMessage{Sender: 3, Vote: gpbft.Payload{Instance: 2, Round: 1, Phase: gpbft.PREPARE_PHASE, SupplementalData: supp, Value: big}, Signature: sig96(),
+				Justification: &gpbft.Justification{Vote: gpbft.Payload{Instance: 2, Round: 0, Phase: gpbft.PREPARE_PHASE, SupplementalData: supp, Value: big}, Signers: vfix.Bitfield([]int{0, 2, 5}), Signature: sig96()}}
+			full := &gpbft.PartialGMessage{GMessage: g, VoteValueKey: big.Key()}
+			raw, err := enc(full)
+			if err != nil {
+				return err
+			}
+			for name, c := range map[string]encoding.EncodeDecoder[*gpbft.PartialGMessage]{"zstd": mustZ[*gpbft.PartialGMessage](), "cbor": encoding.NewCBOR[*gpbft.PartialGMessage]()} {
+				e1, err := c.Encode(full)
+				if err != nil {
+					return fmt.Errorf("%s: a valid message of %d bytes does not encode: %w", name, len(raw), err)
+				}
+				var d gpbft.PartialGMessage
+				if err := c.Decode(e1, &d); err != nil {
+					return fmt.Errorf("%s: a valid message of %d bytes (CBOR) encodes but does not decode: %w", name, len(raw), err)
+				}
+				if b, _ := enc(&d); !bytes.Equal(raw, b) {
+					return fmt.Errorf("%s: round trip of a %d-byte message differs", name, len(raw))
+				}
+			}
+			m := &chainexchange.Message{Instance: 4, Chain: big, Timestamp: 1_700_000_000_123}
+			rawM, _ := enc(m)
+			for name, c := range map[string]encoding.EncodeDecoder[*chainexchange.Message]{"zstd": mustZ[*chainexchange.Message](), "cbor": encoding.NewCBOR[*chainexchange.Message]()} {
+				e1, err := c.Encode(m)
+				if err != nil {
+					return fmt.Errorf("%s: a valid chain message of %d bytes does not encode: %w", name, len(rawM), err)
+				}
+				var d chainexchange.Message
+				if err := c.Decode(e1, &d); err != nil {
+					return fmt.Errorf("%s: a valid chain message of %d bytes (CBOR) encodes but does not decode: %w", name, len(rawM), err)
+				}
+				if !d.Chain.Eq(big) || d.Instance != m.Instance || d.Timestamp != m.Timestamp {
+					return fmt.Errorf("%s: round trip of a %d-byte chain message differs", name, len(rawM))
+				}
+			}
+			return nil
+		}})
+	}
 	for _, w := range wrappers {
 		chk.Add("evaluations", 1)
 		if err := w.run(); err != nil {
@@ -468,6 +565,14 @@ func roundTrips() map[string][]byte {
 		}
 	}
 	return encs
+}
+
+func mustZ[T encoding.CBORMarshalUnmarshaler]() encoding.EncodeDecoder[T] {
+	z, err := encoding.NewZSTD[T]()
+	if err != nil {
+		panic(err)
+	}
+	return z
 }
 
 // tryDecode decodes data into a fresh value; returns a panic description if it panicked.
@@ -694,7 +799,7 @@ func main() {
 		}
 	}
 	chk.Set("exhaustive", chk.Violations() == 0)
-	chk.Set("rule", "signed bytes: chains of every length 1..128 x every tipset x {epoch, key byte, key length, CID, commitments} + neighbour swaps + length +-1 + bottom + every payload field + network name, all pairwise distinct; VRF inputs likewise; chain keys: Key / KeysForPrefixes / AllPrefixes / Prefix(i).Key for every prefix of every length; codecs: 23 wire/storage shapes at boundary sizes (128 tipsets, 760-byte keys, 96-byte signatures, bottom, empty table, 40-entry delta) round-trip through CBOR (+ZSTD where used); robustness: every truncation, every position x every byte value (large encodings: dense in the first 512 / last 64 bytes, CBOR boundary values elsewhere), 2-byte boundary-value deviations for encodings < 200 bytes, inflated length headers at every position with a 16 MiB allocation cap, over-expanding and corrupted ZSTD frames")
+	chk.Set("rule", "signed bytes: chains of every length 1..128 x every tipset x {epoch, key byte, key length, CID, commitments} + neighbour swaps + length +-1 + bottom + every payload field + network name, all pairwise distinct; VRF inputs likewise; chain keys: Key / KeysForPrefixes / AllPrefixes / Prefix(i).Key for every prefix of every length; forks grown (Append, Extend) on every prefix object of chains up to 12, however obtained, leave parent and sibling prefixes intact (content and cached key); codecs: 23 wire/storage shapes at boundary sizes (128 tipsets, 760-byte keys, 96-byte signatures, bottom, empty table, 40-entry delta) round-trip through CBOR (+ZSTD where used); robustness: every truncation, every position x every byte value (large encodings: dense in the first 512 / last 64 bytes, CBOR boundary values elsewhere), 2-byte boundary-value deviations for encodings < 200 bytes, inflated length headers at every position with a 16 MiB allocation cap, over-expanding and corrupted ZSTD frames")
 	chk.Assume("coverage-guided mutation (fuzzing) is a different technique; it is replaced by the exhaustive small-deviation neighbourhood of valid encodings")
 	chk.Finish()
 }
